@@ -14,7 +14,7 @@ EXPLANATION = (
     "transition. reproc_new / reproc_start establish the invariant. With assertions compiled in, no ASSERT of the library "
     "is feasible from any invariant state or on the start path. By induction this covers every finite call sequence. "
     "Not decided: absence of every kind of undefined behaviour in general (only null dereference of the handle, stale "
-    "descriptors, assertion beliefs). As built also: counted tables (the caller's source array, the pipe table, the pollfd array, descriptor sets, local arrays) are never indexed at or beyond their element count, for every count, by linear forms over loop bounds (L5t), and shift amounts stay below the operand width (L5s); reads and writes on closed or non-piped streams return the closed-pipe error whatever buffer and size are given (C02.S2).")
+    "descriptors, assertion beliefs). As built also: counted tables (the caller's source array, the pipe table, the pollfd array, descriptor sets, local arrays) are never indexed at or beyond their element count, for every count, by linear forms over loop bounds (L5t), and shift amounts stay below the operand width (L5s); reads and writes on closed or non-piped streams return the closed-pipe error whatever buffer and size are given (C02.S2). No variable-length array or alloca is sized by an unchecked count (L5v); no nonnull annotation lets the compiler drop the null-handle guards (L1n); absent sources are never polled or dereferenced (C09.V1-V5).")
 ASSUMPTIONS = [
     "clang 14 parser/CFG and the fact extractor are correct",
     "libc models in sa/models.py",
